@@ -421,6 +421,48 @@ def pdu_tie(run, model, exe):
         run.sample({"case": lines[-1], "impl": oc[-1][:300]}, limit=8)
 
 
+def replay(run, model, exe, path):
+    """re-run the case(s) named in a replay file written by this check"""
+    txt = open(path).read()
+    cases = re.findall(r"^\s*(?:case:\s*)?(fa \S+ \d+ \d+|fapdu .*)$", txt, re.M)
+    m = re.search(r"^variant: (\w+)", txt, re.M)
+    variant = m.group(1) if m else "base"
+    env = None
+    if variant == "asan":
+        exe = vlib.build_driver("h_fault", ["h_fault.c"], "asan", extra=["-no-pie"], wraps=WRAPS)
+        env = ASAN_ENV
+    rs = Resolver(exe)
+    for ln in cases[:1]:
+        if ln.startswith("fapdu"):
+            a, b, _ = tie.run_both(model, exe, [ln])
+            vlib.log("case : %s\nmodel: %s\nimpl : %s" % (ln, a[0], b[0]))
+            if a[0] != b[0] or b[0].startswith("CRASH") or " HEAP " in b[0] or " atomic=0 " in b[0]:
+                run.violation("replayed PDU-layer case still fails", "case: %s\nmodel: %s\nimpl : %s\n" %
+                              (ln, a[0], b[0]), tag="replay")
+            continue
+        sc = ln.split()[1]
+        outs, _ = vlib.run_lines_robust(exe, ["fa %s 0 0" % sc, ln], env=env)
+        c, d = parse_result(outs[0]), parse_result(outs[1])
+        v = verdicts(model, [d["trace"] if d["status"] == "OK" else "-"])[0]
+        bad = judge(d, c, v)
+        chains = [rs.chain(nt["bt"]) for nt in parse_notice(d["site"])]
+        vlib.log("case   : %s\nstatus : %s\nverdict: %s\nsites  : %s\nresult : %s\nclean  : %s\njudged : %s" %
+                 (ln, d["status"], v, " & ".join(chains), d["res"], c["res"], bad or "ok"))
+        for kind, detail in bad:
+            f = match_known(run, sc, kind, chains or ["?"], detail)
+            if f:
+                run.known(f, "%s %s at %s" % (sc, kind, " & ".join(chains)))
+            else:
+                run.violation("%s: %s (%s)" % (sc, kind, detail), "replay (stdin of the driver):\n  %s\n%s\n" %
+                              (ln, d["raw"][:3000]), tag="replay")
+    run.count("replay", True)
+    run.sample({"replayed": cases[:1]})
+
+
+ASAN_ENV = {"ASAN_OPTIONS": "detect_leaks=0:abort_on_error=1:allocator_may_return_null=1",
+            "UBSAN_OPTIONS": "halt_on_error=1:abort_on_error=1"}
+
+
 def main(run):
     run.cov["trusted_base"] = vlib.TRUSTED_COMMON + [
         "harness/common/fa_alloc.h: the ld --wrap shim that numbers blocks, logs the events and "
@@ -437,6 +479,9 @@ def main(run):
     run.prove()
     model = vlib.build_model()
     exe = vlib.build_driver("h_fault", ["h_fault.c"], "base", extra=["-no-pie"], wraps=WRAPS)
+    if getattr(run, "replay", None):
+        replay(run, model, exe, run.replay)
+        return
     out, _ = vlib.run_lines_robust(exe, ["fascen"])
     scen = out[0].split()
     stats = {}
@@ -445,9 +490,7 @@ def main(run):
     nv = report(run, fails, "base")
     if thorough:
         exe_a = vlib.build_driver("h_fault", ["h_fault.c"], "asan", extra=["-no-pie"], wraps=WRAPS)
-        env = {"ASAN_OPTIONS": "detect_leaks=0:abort_on_error=1:allocator_may_return_null=1",
-               "UBSAN_OPTIONS": "halt_on_error=1:abort_on_error=1"}
-        fails_a = enumerate_variant(run, model, exe_a, "asan", scen, False, stats, env=env)
+        fails_a = enumerate_variant(run, model, exe_a, "asan", scen, False, stats, env=ASAN_ENV)
         nv += report(run, fails_a, "asan")
     if os.path.exists(os.path.join(vlib.COQ, "Fault", "PduAtomic.v")):
         pdu_tie(run, model, exe)
